@@ -155,7 +155,11 @@ func (c *Ctx) specCall(name string, e *ast.CallExpr) (Value, bool) {
 		}
 		bvarSeq++
 		bv := BVar(fmt.Sprintf("%s!%d", id.Name, bvarSeq), SRef)
-		n := c.withVar(id.Name, Scalar(bv, o.Type()))
+		bt := o.Type()
+		if _, isStruct := bt.Underlying().(*types.Struct); isStruct {
+			bt = types.NewPointer(bt) // quantify over pointers to the struct
+		}
+		n := c.withVar(id.Name, Scalar(bv, bt))
 		b := n.eval(e.Args[2]).S
 		if name == "forallOf" {
 			return Scalar(Forall([]*Term{bv}, b), boolT), true
